@@ -14,9 +14,13 @@
             | (status)   for 6 7: 0 nothing pending, 1 handled, 2 panicked (harness stops)
             | ()         for 8
             | (status id ...)   for 9: ids in the order they appeared on Chan(); status 2 panicked
-            | (consistent (level slot id deadline period) ...)  for 10 *)
+            | (consistent (level slot id deadline period) ...)  for 10
+              wheel: buckets in (level, slot) order, each in list order;
+              heap: the array in array order with level 0 and slot = the node's index
+              field, then the nodes the worker has seen that are outside the array with
+              level -1 and slot = their index field, by id *)
 From Coq Require Import ZArith List Bool.
-From FV Require Import Lib.Sx C05.Model C05.Spec.
+From FV Require Import Lib.Sx C05.Model C05.Spec C05.HeapArr.
 Import ListNotations.
 Open Scope Z_scope.
 
@@ -147,15 +151,17 @@ Definition cmp_spec (pre : sst) (o : op) (z : out) (b : sx) : verdict :=
   | _, _ => VBad
   end.
 
-Fixpoint go (ops : list op) (obs : list sx) (m : st) (z : sst) (v : verdict) : verdict :=
+(* [stepf]: the model's step — the wheel machine of Model.v, or the heap machine with its
+   real array (HeapArr.v) *)
+Fixpoint go {S : Type} (stepf : S -> op -> S * out) (ops : list op) (obs : list sx) (m : S) (z : sst) (v : verdict) : verdict :=
   match ops, obs with
   | [], [] => v
   | o :: ops', b :: obs' =>
       if refused o b then vjoin v VBad else
-      let '(m', mo) := step m o in
+      let '(m', mo) := stepf m o in
       let '(z', zo) := sstep z o in
       let v' := vjoin v (vjoin (cmp_spec z o zo b) (cmp_model o mo b)) in
-      if stopped o b then v' else go ops' obs' m' z' v'
+      if stopped o b then v' else go stepf ops' obs' m' z' v'
   | _, _ => vjoin v VBad
   end.
 
@@ -164,8 +170,8 @@ Definition check_case (c : sx) : verdict :=
   | SList [SList [SInt impl; SInt cur0; SInt tt0; SList ops]; SList obs] =>
       match map_opt dec_op ops with
       | Some ops =>
-          if impl =? 0 then go ops obs (init_wheel cur0 tt0) (sinit true tt0) VOk
-          else go ops obs (init_heap tt0) (sinit false tt0) VOk
+          if impl =? 0 then go step ops obs (init_wheel cur0 tt0) (sinit true tt0) VOk
+          else go astep ops obs (ainit tt0) (sinit false tt0) VOk
       | None => VBad
       end
   | _ => VBad
